@@ -29,7 +29,75 @@ def run_c02(ctx):
     return res
 
 
+def l1_both(ctx, release_scale_quick="0.25", miri_shards=0):
+    """checked build fully; release build fully (thorough) or on a sample (quick)."""
+    res = Result()
+    res.add_lv(common.run_lv(ctx, "checked"))
+    extra = [] if ctx.thorough() else ["--scale", release_scale_quick]
+    res.add_lv(common.run_lv(ctx, "release", extra))
+    if ctx.thorough() and miri_shards:
+        import layers
+        layers.miri(ctx, res, ctx.pid, shards=miri_shards)
+    return res
+
+
+def run_c01(ctx):
+    return l1_both(ctx)
+
+
+def run_c03(ctx):
+    return l1_both(ctx)
+
+
+def run_c04(ctx):
+    return l1_both(ctx)
+
+
+def run_c05(ctx):
+    return l1_both(ctx)
+
+
 PROPS = {
+    "C01": {
+        "run": run_c01,
+        "level": "exploration",
+        "design_ref": "DESIGN.md section 4 C01",
+        "level_text": "Differential runtime monitor over the public assemble path: abstract programs are encoded by an independent ISA encoder and rendered in randomised layouts/spellings; the real assembler's image must equal the reference image for every rendering. Contains an exhaustive sweep of every single-statement form x register x in-range immediate/offset (thorough; strided in quick) and every label distance in each PC-relative field (thorough).",
+        "level_note": "Trusted: refasm.rs encoder/renderer. Multi-statement programs are sampled.",
+        "technique": "runtime monitoring: differential oracle (reference ISA encoder) over AsmParser/Air::backpatch/AsmLine::emit on generated programs and layouts; checked + release builds",
+        "rule": "case = abstract program (single-statement sweep, label-geometry program, or random program) x R renderings; non-trivial = has a PC-relative statement or a negative field; distinct = hash of the abstract program",
+        "assumptions": COMMON_ASSUMPTIONS,
+    },
+    "C03": {
+        "run": run_c03,
+        "level": "exploration",
+        "design_ref": "DESIGN.md section 4 C03",
+        "level_text": "Runtime monitor with a reference run model: load-time state, the complete fetch trace (hook in the run loop), captured program output, consumed input bytes, stop reason / exit status and the final machine state of structured terminating programs (through try_from) and arbitrary word images (through from_raw, under a step budget) are compared with the reference VM. Sampled over programs/images/inputs.",
+        "level_note": "Trusted: refvm.rs run model; images that execute RTI or hit documented-unspecified trap inputs are discarded and counted.",
+        "technique": "runtime monitoring: fetch-trace + output + final-state comparison against a reference VM under logical fuel; typed unwinds for process exits",
+        "rule": "case = structured program (loops, nested/recursive subroutines, self-modifying stores, traps, all endings) or arbitrary image, with an input byte stream; non-trivial = at least 2 instructions fetched; distinct = hash of image and input",
+        "assumptions": COMMON_ASSUMPTIONS,
+    },
+    "C04": {
+        "run": run_c04,
+        "level": "exploration",
+        "design_ref": "DESIGN.md section 4 C04",
+        "level_text": "Boundary-value runtime monitor: the complete matrix field kind x {min-1,min,...,max,max+1,16-bit extremes} x spelling, label distances at and beyond each field limit (and at the 16-bit wrap distances), symbol errors and random programs with one injected out-of-range operand; accept/reject/crash and the emitted image are compared with an independent acceptance predicate + encoder.",
+        "level_note": "Trusted: refasm.rs predicate. Points the documents leave open (positive spellings >= 32768 in signed fields, negative .orig) are accepted either way.",
+        "technique": "runtime monitoring: reference acceptance predicate vs observed Ok/Err/panic of the public assemble path, image cross-check; checked + release builds",
+        "rule": "case = one program with an operand at/around a field boundary (or a symbol error, or an injected out-of-range operand) in one spelling; all cases are non-trivial; distinct = hash of program and spelling",
+        "assumptions": COMMON_ASSUMPTIONS,
+    },
+    "C05": {
+        "run": run_c05,
+        "level": "exploration",
+        "design_ref": "DESIGN.md section 4 C05",
+        "level_text": "Totality monitor: grammar-derived texts under token-level, character-level and multi-byte mutations plus hand-written seeds and size extremes are pushed through the assemble path under catch_unwind with panic-location capture (overflow checks and debug assertions on in the checked build); every returned diagnostic is rendered and its labelled spans checked against the source; a wall-clock watchdog nominates hangs for a CPU-limited re-run.",
+        "level_note": "Coverage is what the mutation engine reaches; non-termination is decided on CPU time in an isolated re-run, never on wall clock.",
+        "technique": "runtime monitoring / fuzzing with a crash-and-span oracle (catch_unwind, rustc overflow + debug assertions as sanitizer), CPU-limit confirmation for hangs",
+        "rule": "case = one input text (seed or mutated rendering of a generated program, or a size-extreme program); distinct = hash of the text; every text is non-trivial",
+        "assumptions": COMMON_ASSUMPTIONS,
+    },
     "C02": {
         "run": run_c02,
         "level": "exploration",
